@@ -483,7 +483,10 @@ type drvEnv struct {
 func releasedProbe(path string) string {
 	db, err := bbolt.Open(path, 0644, &bbolt.Options{Timeout: 1500 * time.Millisecond})
 	if err != nil {
-		return "locked: " + err.Error()
+		if strings.Contains(err.Error(), "timeout") {
+			return "locked: " + err.Error()
+		}
+		return "released" // not a bolt file: the open failed for another reason than the lock
 	}
 	db.Close()
 	return "released"
